@@ -259,6 +259,9 @@ _MAX_VERSION_LINE_LEN = 255
 # Max allowed username length
 _MAX_USERNAME_LEN = 1024
 
+# Max TCP port number
+_MAX_PORT = 65535
+
 # Default rekey parameters
 _DEFAULT_REKEY_BYTES = 1 << 30      # 1 GiB
 _DEFAULT_REKEY_SECONDS = 3600       # 1 hour
@@ -6461,6 +6464,11 @@ class SSHServerConnection(SSHConnection):
             raise ProtocolError('Invalid direct TCP/IP channel '
                                 'open request') from None
 
+        if dest_port > _MAX_PORT:
+            # The resolver would silently reduce this modulo 65536
+            raise ChannelOpenError(OPEN_ADMINISTRATIVELY_PROHIBITED,
+                                   f'Invalid destination port {dest_port}')
+
         if not self.check_key_permission('port-forwarding') or \
            not self.check_certificate_permission('port-forwarding'):
             raise ChannelOpenError(OPEN_ADMINISTRATIVELY_PROHIBITED,
@@ -6521,6 +6529,14 @@ class SSHServerConnection(SSHConnection):
             listen_host = listen_host_bytes.decode('utf-8').lower()
         except UnicodeDecodeError:
             raise ProtocolError('Invalid TCP/IP forward request') from None
+
+        if listen_port > _MAX_PORT:
+            # The resolver would silently reduce this modulo 65536
+            self.logger.info('Request for TCP listener on %s denied: '
+                             'invalid port', (listen_host, listen_port))
+
+            self._report_global_response(False)
+            return
 
         if not self.check_key_permission('port-forwarding') or \
            not self.check_certificate_permission('port-forwarding'):
